@@ -272,6 +272,13 @@ Definition append (e other : encoder) : outcome encoder :=
     else Panic                                                       (* assert! chronological *)
   end.
 
+(* encoders.reduce(append): the per-thread encoders are appended in chunk order *)
+Fixpoint append_all (acc : encoder) (l : list encoder) : outcome encoder :=
+  match l with
+  | [] => Ok acc
+  | o :: r => do a <- append acc o; append_all a r
+  end.
+
 (* Encoder::finish: (blocks, combined time table) *)
 Definition enc_finish (e : encoder) : outcome (list block * list N) :=
   do e1 <- finish_block e;
